@@ -38,17 +38,18 @@ PLAN["C16"] = {
             "vk_size_threadname": {"class": "C", "fn": "scroll size of MDRawThreadName == 12"},
             "vk_ser_dirent_layout": {"class": "C", "fn": "MemoryWriter::<MDRawDirectory>::alloc_with_val little-endian field placement"},
             "vk_ser_memdesc_layout": {"class": "C", "fn": "MemoryWriter::<MDMemoryDescriptor>::alloc_with_val little-endian field placement"},
-            "vk_alloc_from_array_memdesc_n0": {"class": "B", "bound": "0 elements after a 2-byte image", "fn": "MemoryArrayWriter::alloc_from_array"},
             "vk_alloc_from_array_memdesc_n2": {"class": "B", "bound": "2 symbolic MDMemoryDescriptor after a 2-byte symbolic image", "fn": "MemoryArrayWriter::alloc_from_array"},
             "vk_alloc_from_iter_threadname_n2": {"class": "B", "bound": "2 symbolic MDRawThreadName after a 2-byte symbolic image", "fn": "MemoryArrayWriter::alloc_from_iter"},
-            "vk_string_1char": {"class": "B", "bound": "1 char, every Unicode scalar value, after a 2-byte symbolic image", "fn": "write_string_to_location"},
+            "vk_string_supp": {"class": "B", "bound": "concrete string U+1D11E (surrogate pair) after a 2-byte symbolic image", "fn": "write_string_to_location"},
+            "vk_string_bmp": {"class": "B", "bound": "concrete string U+00E9 U+20AC (2- and 3-byte UTF-8)", "fn": "write_string_to_location"},
         }},
         {"tiers": T, "jobs": 6, "timeout": 3000, "harnesses": {
             "vk_size_exception": {"class": "C", "fn": "scroll size of MDRawExceptionStream == 168"},
             "vk_write_at_u32_len5": {"class": "B", "bound": "5-byte symbolic buffer, every offset 0..=5, u32", "fn": "Buffer::write_at (twin of the Verus proof)"},
             "vk_alloc_from_array_u8_n5": {"class": "B", "bound": "5 symbolic bytes after a 2-byte image", "fn": "MemoryArrayWriter::<u8>::alloc_from_array"},
             "vk_string_empty": {"class": "B", "bound": "empty string", "fn": "write_string_to_location"},
-            "vk_string_2char": {"class": "B", "bound": "2 chars, every pair of Unicode scalar values", "fn": "write_string_to_location"},
+            "vk_string_ascii": {"class": "B", "bound": "concrete string \"ab\"", "fn": "write_string_to_location"},
+            "vk_string_mixed": {"class": "B", "bound": "concrete string 'a' U+1F600 U+FFFD (4 UTF-16 units)", "fn": "write_string_to_location"},
         }},
     ],
     "twins": {"write_at": ["vk_write_at_u32_len5"]},
@@ -85,3 +86,66 @@ PLAN["C10"] = {
                 "that a stream's entry references only bytes below the image length at emission time is C01(b)"],
     "samples": ["dump_dir_entry requires last_position_written_to_file == |image|  [C10]"],
 }
+
+
+STACK = {"unit": "stack", "rlimit": 60, "tiers": Q}
+
+PLAN["C06"] = {
+    "level": "proof",
+    "explanation": "get_stack_info and fill_thread_stack proved verbatim: a captured stack starts on the page of the stack pointer "
+                   "(or in the first plausible stack mapping above it), extends to the end of that mapping without a limit, is at most the "
+                   "limit with one, and contains the stack pointer whenever the stack pointer lies in a readable stack-like mapping",
+    "verus": [dict(STACK, functions=["get_stack_info", "fill_thread_stack", "contains_address", "end_address"], tags=["C06"])],
+    "kani": [],
+    "trusted": ["copy_from_process satisfies copy_ok (C17 decides it for the ptrace strategy; assumed for process_vm_readv and /proc/pid/mem)",
+                "find_mapping / may_be_stack contracts are assumed in Verus (iterator adapter, bitflags operator) and checked by Kani in C02's group",
+                "which threads get the 2 KiB cap (list position >= 20, never the crash-context thread) is decided inside thread_list_stream::write, which Verus cannot read (enumerate()); see the Kani harness vk_tls_cap_selection when present"],
+    "samples": ["get_stack_info ensures: is_first(k, page(sp)) && stack_like(maps[k]) ==> Ok && v == page(sp) && v+len == end(maps[k])",
+                "fill_thread_stack ensures: sp in a readable stack-like mapping && included ==> start <= sp < start+len  [C06]"],
+}
+
+PLAN["C07"] = {
+    "level": "proof",
+    "explanation": "fill_thread_stack pushes exactly the non-empty stack descriptor whose bytes equal target memory (reader contract); "
+                   "memory_list_stream::write serialises the recorded blocks verbatim, in order, with the count the size implies",
+    "verus": [dict(STACK, functions=["fill_thread_stack", "memory_list_stream_write"], tags=["C07"])],
+    "kani": [],
+    "trusted": ["copy_from_process satisfies copy_ok (see C17)",
+                "app_memory::write and the instruction-pointer window live in loops Verus cannot relate to positions (for-in without ghost index, enumerate()); "
+                "they are Kani obligations (vk_app_memory_*, vk_ip_window_*) when present, otherwise not covered",
+                "alloc_from_array contract assumed in Verus, checked by Kani (C16 group)"],
+    "samples": ["memory_list_stream::write ensures: size == 4 + 16*n; element i == ser(memory_blocks[i])"],
+}
+
+PLAN["C20"] = {
+    "level": "proof",
+    "explanation": "fill_thread_stack keeps a stack under skip-unreferenced iff the instruction pointer lies in [low, high) of the principal mapping "
+                   "or the copied bytes hold an aligned pointer into it; crash_thread_references_principal_mapping uses the same half-open range",
+    "verus": [dict(STACK, functions=["fill_thread_stack", "crash_thread_references_principal_mapping"], tags=["C20"])],
+    "kani": [],
+    "trusted": ["stack_has_pointer_to_mapping's contract (has_ptr) is assumed in Verus (byteorder) and checked by Kani (vk_has_ptr_*)",
+                "that dump() reports PrincipalMappingNotReferenced and still succeeds is the dump() control-flow harness (thorough tier)"],
+    "samples": ["fill_thread_stack ensures: skip && principal is Some && included ==> ip_in(pm, ip) || exists bytes. copy_ok(..) && has_ptr(bytes, ..)  [C20]"],
+}
+
+# ---------------------------------------------------------------------------
+# manifest text
+# ---------------------------------------------------------------------------
+TECHNIQUE = {
+    "C16": "deductive verification (Verus contracts on verbatim src/mem_writer.rs) + Kani harnesses for per-type serialisation facts and the three functions Verus cannot read",
+    "C09": "deductive verification (Verus): DirSection representation invariant proved function by function against an assumed std::io model",
+    "C10": "deductive verification (Verus): flush-before-entry precondition of dump_dir_entry discharged at its call site",
+    "C06": "deductive verification (Verus): postconditions of get_stack_info / fill_thread_stack on verbatim text",
+    "C07": "deductive verification (Verus): postconditions of fill_thread_stack / memory_list_stream::write",
+    "C20": "deductive verification (Verus): biconditional postcondition of fill_thread_stack and crash_thread_references_principal_mapping",
+}
+LEVEL_TEXT = {
+    "C16": "unbounded proof for every Buffer/MemoryWriter/MemoryArrayWriter function Verus can read (all inputs, all buffer states); complete Kani proofs of the per-type size facts; bounded Kani checks (stated bounds) of alloc_from_array/alloc_from_iter/write_string_to_location",
+    "C09": "unbounded proof, for every start offset, pre-existing destination content, image and operation, that each DirSection operation preserves 'flushed prefix == image' and touches nothing outside [start, start+|image|), relative to the assumed Write/Seek semantics",
+    "C10": "unbounded proof that no directory entry reaches the destination before the bytes it can reference (the obligation that failed on the pinned tree and was repaired)",
+    "C06": "unbounded proof over all stack pointers, mapping lists and page sizes of the stack-capture postconditions (containment of SP, page start, extent, 2 KiB cap), relative to the reader contract",
+    "C07": "unbounded proof that stack regions and the serialised memory list are faithful, relative to the reader contract; app-memory and IP window are not yet under contract",
+    "C20": "unbounded proof of the keep/drop rule for stacks under skip-unreferenced, relative to the assumed contract of the stack scanner (checked bounded by Kani)",
+}
+NOT_APPLICABLE = {p: "check not built yet (framework under construction; see DESIGN.md §4 for the planned units)" for p in
+                  ["C01", "C02", "C03", "C04", "C05", "C08", "C11", "C12", "C13", "C14", "C15", "C17", "C18", "C19"]}
